@@ -75,6 +75,11 @@ def run_containers(ctx, known, built, prop, light=False, tags=("C06:", "C07:")):
         else:
             cmd = "Eval vm_compute in run_histories up low names %s." % lit(text)
         jobs.append((sh_["weight"], sh_, cmd))
+    # which start trees load at all: the model's load against Font::load
+    starts = summ.get("starts", [])
+    if starts:
+        jobs.append((3000, {"id": "starts", "kind": "starts", "starts": starts},
+                     "Eval vm_compute in map (loads low names) [%s]." % ";".join(one(st["start"]) for st in starts)))
     jobs.sort(key=lambda j: -j[0])
     nfiles = max(1, min(len(jobs), 32))
     bins = [[0, []] for _ in range(nfiles)]
@@ -109,6 +114,13 @@ def run_containers(ctx, known, built, prop, light=False, tags=("C06:", "C07:")):
         nok += 1
         for sh_, v in zip(files[vf], vals):
             diffs = parse_term(v)
+            if sh_["kind"] == "starts":
+                for st, m in zip(sh_["starts"], diffs):
+                    if (m == "true") != bool(st["loads"]):
+                        ctx.disagreements.append({"what": "model and Font::load differ on whether this tree loads",
+                                                  "start": st["start"], "ops": "", "model_loads": m == "true",
+                                                  "implementation_loads": st["loads"]})
+                continue
             if not diffs:
                 continue
             if sh_["kind"] == "trie":
